@@ -192,6 +192,7 @@ def canary_probe(sym, sc):
 
 def canaries(run, scs):
     """In-memory source mutants that the harness must notice (sat)."""
-    pick = [s for s in scs if s["halo"] not in (None, 0.0) and abs(s["halo"] / s["dx"] - round(s["halo"] / s["dx"])) > 1e-9][:2]
-    pick += [s for s in scs if s["halo"] == 0.0][:1]
+    cscs = kindl.base_scenarios("quick", 0)
+    pick = [s for s in cscs if s["halo"] not in (None, 0.0) and abs(s["halo"] / s["dx"] - round(s["halo"] / s["dx"])) > 1e-9][:2]
+    pick += [s for s in cscs if s["halo"] == 0.0][:1]
     kindl.run_canaries(run, "vf.props.C02:canary_probe", CANARIES, pick)
